@@ -197,7 +197,7 @@ func C01(run *Run) {
 		engines = []string{"server", "v1:default", "v1:weight2", "v1:recursive"}
 	}
 	for c := 0; c < nCases; c++ {
-		cs, rej := GenCase(r, c, GenOpts{})
+		cs, rej := GenCase(r, c, GenOpts{MinTuples: 8, MaxTuples: 20})
 		rejected += rej
 		if err := env.Setup(ctx, cs.Model, cs.Tuples); err != nil {
 			run.Inconclusive("setup failed: %v (model %s)", err, cs.Model)
